@@ -128,6 +128,10 @@ type FileCase struct {
 	Extra    string    `json:"extra,omitempty"` // unknown key / table / syntax error appended to the file
 	ExtraLabel string  `json:"extra_label,omitempty"` // unknown-key | unknown-table | syntax
 	Missing  bool      `json:"missing,omitempty"` // no file at all
+	// CutAt > 0: the file ends after that many bytes (an interrupted write: no final newline, possibly mid-statement);
+	// Whole != "": the file is exactly this text
+	CutAt int    `json:"cut_at,omitempty"`
+	Whole string `json:"whole,omitempty"`
 }
 
 func (c FileCase) toml() string {
@@ -166,7 +170,14 @@ func (c FileCase) toml() string {
 		b.WriteString("\n")
 	}
 	b.WriteString(c.Extra)
-	return b.String()
+	text := b.String()
+	if c.Whole != "" {
+		return c.Whole
+	}
+	if c.CutAt > 0 && c.CutAt < len(text) {
+		text = text[:c.CutAt]
+	}
+	return text
 }
 
 var panicRe = regexp.MustCompile(`(?m)^(panic: |fatal error: |\[signal SIG)`)
@@ -232,6 +243,15 @@ func checkFile(c FileCase) vrep.Result {
 		classes = append(classes, "file-missing")
 		must = "accept"
 	}
+	if c.CutAt > 0 {
+		// whatever is left may or may not be well-formed: accepted or rejected with a diagnostic, never a crash
+		classes = append(classes, "file-cut-short")
+		must = "either"
+	}
+	if c.Whole != "" {
+		classes = append(classes, "file-is-one-unfinished-statement")
+		must = "reject"
+	}
 	describe := func() string { return fmt.Sprintf("configuration:\n%s\nprobe output:\n%s", text, clip(output)) }
 	if crashed {
 		return vrep.Result{Classes: classes, Err: fmt.Errorf("the program crashed under a configuration it %s\n%s", map[bool]string{true: "accepted", false: "did not accept"}[accepted], describe())}
@@ -295,6 +315,9 @@ func checkParsed(c FileCase, output string) error {
 				return fmt.Errorf("colour %s has component %d", k, n)
 			}
 		}
+	}
+	if c.CutAt > 0 {
+		return nil // which settings survived the cut is not known here: only the well-formedness above
 	}
 	given := map[string]Setting{}
 	for _, s := range c.Settings {
@@ -468,6 +491,12 @@ func genFile(t *rapid.T) FileCase {
 	case 2:
 		c.ExtraLabel = "syntax"
 		c.Extra = rapid.SampledFrom([]string{"[network\n", "= 5\n", "x = \n", "[style]\ncolors = {\n", "\"unterminated\n", "a = 1 b = 2\n", "\x00\n"}).Draw(t, "syntax")
+	}
+	switch rapid.IntRange(0, 11).Draw(t, "damaged") {
+	case 3:
+		c.CutAt = rapid.IntRange(1, 120).Draw(t, "cutat")
+	case 7:
+		c.Whole = rapid.SampledFrom([]string{"preload_amount =", "cache_size", "x", "primary = \"#A4f59b", "hook = [\"mpv\", ", "[network", "[", "=", "[feeds]\nx = [", "a.b", "\"", "'"}).Draw(t, "whole")
 	}
 	// a key given twice in the generated text would be a syntax error of its own: Extra uses other names/sections carefully
 	if c.ExtraLabel == "unknown-key" {
